@@ -82,6 +82,7 @@ type PipeSpec struct {
 	TimeoutMs   int      `json:"timeout_ms"`
 	Footprint   bool     `json:"footprint"`
 	HTTPTimeout int      `json:"http_timeout"` // --http-timeout in seconds (0 = none)
+	StopSignal  string   `json:"stop_signal"`  // "TERM" / "INT": the stop request arrives the way an operator sends it - as a signal handled by the real controler.WatchSignals() (which stops and exits 0)
 	IncludeHost string   `json:"include_host"` // "A" / "B": --include-host = that origin host; seeds, assets and redirect targets elsewhere are out of scope
 	TempInJob   bool     `json:"temp_in_job"` // --warc-temp-dir = the job directory itself (legal, unusual): nothing of the job may be deleted at stop
 	SlowPoint   string   `json:"slow_point"`   // every event at this hook point takes SlowMs longer (a slow disk, a slow queue: any schedule is allowed)
@@ -277,6 +278,18 @@ func runPipeChild(specPath string) {
 				res.PausedAtStop = pause.IsPaused()
 				evlog.write("stop.call")
 				ts := time.Now()
+				if sp.StopSignal != "" {
+					// WatchSignals() runs controler.Stop() and then os.Exit(0): leave what is known so far for the parent
+					if out, err := json.Marshal(res); err == nil {
+						os.WriteFile(fmt.Sprintf("result.%d.json", runN), out, 0o644)
+					}
+					sig := syscall.SIGTERM
+					if sp.StopSignal == "INT" {
+						sig = syscall.SIGINT
+					}
+					syscall.Kill(os.Getpid(), sig)
+					time.Sleep(time.Duration(sp.TimeoutMs) * time.Millisecond) // the process ends inside WatchSignals
+				}
 				controler.Stop()
 				res.StopMs = time.Since(ts).Milliseconds()
 				res.StopReturned = true
@@ -396,6 +409,9 @@ func runPipeChild(specPath string) {
 		}()
 	}
 
+	if sp.StopSignal != "" {
+		go controler.WatchSignals()
+	}
 	// controler.Start blocks while input seeds outnumber the free tokens: run it aside
 	started := make(chan struct{})
 	go func() { controler.Start(); close(started) }()
@@ -545,6 +561,7 @@ type resource struct {
 	cfMitigate bool
 	truncate   bool // announce the full length, send half of the body, then drop the connection
 	drop       bool // accept the connection and close it without answering (every attempt fails at transport level)
+	dropFirst  int  // close the connection without answering on the first n attempts, then answer normally (a transient transport failure)
 	stall      bool // accept the request and never answer (until the client gives up): only --http-timeout ends the fetch
 	links      []string
 }
@@ -669,6 +686,9 @@ func (s *e2eSite) lookup(url string) resource {
 	}
 	res.gzip = r.Chance(25)
 	res.chunked = r.Chance(35)
+	if s.mode == "flaky" && r.Chance(50) {
+		res.dropFirst = 1 + r.Intn(2) // the first attempts die at transport level, a later one succeeds
+	}
 	if res.truncate && (s.mode == "hosts" || s.mode == "bodies") && r.Chance(70) {
 		// a transfer that breaks mid-stream on a body beyond the 2 MiB spool threshold of a type that is kept
 		// for post-processing: the spooled temp file must not be left behind
@@ -694,6 +714,9 @@ func (s *e2eSite) ServeHTTP(w http.ResponseWriter, req *http.Request) {
 		case <-time.After(10 * time.Minute):
 		}
 		return
+	}
+	if res.dropFirst >= att {
+		res.drop = true
 	}
 	if res.drop {
 		evlog.write("origin", url, "0", "-", "0", fmt.Sprint(att))
